@@ -10,6 +10,9 @@
 //	O3  after a 4xx the state digest of ALL collections of ALL users is unchanged
 //	O4  a body the decoder refuses, a missing header, an unknown route must be answered 4xx
 //	O5  every stored vector under an indexed path has the index dimension (seen through search)
+//	O6  a search that is answered 2xx holds, in the part of its query that is executed (the list that goes
+//	    with `_and` / `_or`, the filter of every vector / text leaf, at any depth), no vector whose length
+//	    differs from the dimension of the index it is run on
 //
 // For every request whose body the real decoder accepts (or refuses), the decoded request is
 // rendered into the model's abstract JSON syntax and written as an `h` op line together with the
@@ -22,6 +25,7 @@ import (
 	"bytes"
 	"encoding/hex"
 	"encoding/json"
+	"errors"
 	"flag"
 	"fmt"
 	"io"
@@ -180,7 +184,40 @@ type response struct {
 	err    error
 }
 
-func (c *child) do(r request) response {
+var slowClient = &http.Client{Timeout: 60 * time.Second, Transport: &http.Transport{DisableCompression: true}}
+
+func isTimeout(err error) bool {
+	type timeout interface{ Timeout() bool }
+	var t timeout
+	return errors.As(err, &t) && t.Timeout()
+}
+
+// waitPing: does the server answer a ping within d?
+func (c *child) waitPing(d time.Duration) bool {
+	deadline := time.Now().Add(d)
+	for time.Now().Before(deadline) && c.alive() {
+		r := c.doWith(slowClient, request{"ping", "BASIC", "GET", "/v2/ping", "", nil})
+		if r.err == nil && r.status == 200 {
+			return true
+		}
+		time.Sleep(200 * time.Millisecond)
+	}
+	return false
+}
+
+func (c *child) do(r request) response { return c.doWith(httpClient, r) }
+
+// doPatient: for the harness' own idempotent reads (state digest): a time-out while the process lives is
+// retried once with the long time-out after the server answered a ping (a stalled machine is not a finding)
+func (c *child) doPatient(r request) response {
+	resp := c.do(r)
+	if resp.err != nil && isTimeout(resp.err) && c.alive() && c.waitPing(60*time.Second) {
+		return c.doWith(slowClient, r)
+	}
+	return resp
+}
+
+func (c *child) doWith(client *http.Client, r request) response {
 	req, err := http.NewRequest(r.method, fmt.Sprintf("http://127.0.0.1:%d%s", c.port, r.path), bytes.NewReader(r.body))
 	if err != nil {
 		return response{err: err}
@@ -194,7 +231,7 @@ func (c *child) do(r request) response {
 	if r.ctype != "" {
 		req.Header.Set("Content-Type", r.ctype)
 	}
-	resp, err := httpClient.Do(req)
+	resp, err := client.Do(req)
 	if err != nil {
 		return response{err: err}
 	}
@@ -237,7 +274,7 @@ func (w *world) readState() (map[string]map[string]*colInfo, string, string) {
 	var sb strings.Builder
 	for _, u := range w.users {
 		cols[u.user] = map[string]*colInfo{}
-		r := w.c.do(request{u.user, u.plan, "GET", "/v2/collections", "", nil})
+		r := w.c.doPatient(request{u.user, u.plan, "GET", "/v2/collections", "", nil})
 		if r.err != nil || r.status != 200 {
 			return nil, "", fmt.Sprintf("list collections of %s: status %d err %v", u.user, r.status, r.err)
 		}
@@ -258,7 +295,7 @@ func (w *world) readState() (map[string]map[string]*colInfo, string, string) {
 		for _, id := range ids {
 			key := u.user + "/" + id
 			greq := request{u.user, u.plan, "GET", "/v2/collections/" + id, "", nil}
-			r := w.c.do(greq)
+			r := w.c.doPatient(greq)
 			if r.err != nil {
 				return nil, "", fmt.Sprintf("get collection %s/%s: err %v", u.user, id, r.err)
 			}
@@ -307,7 +344,7 @@ func (w *world) readState() (map[string]map[string]*colInfo, string, string) {
 				}
 				q := Obj("query", Obj("property", Str("_id"), "stringArray", Obj("value", vals, "operator", Str("containsAny"))), "select", Arr(Str("*")), "limit", Int(100))
 				sreq := request{u.user, u.plan, "POST", "/v2/collections/" + id + "/points/search", "application/json", q.JSON()}
-				r := w.c.do(sreq)
+				r := w.c.doPatient(sreq)
 				if r.err != nil {
 					return nil, "", fmt.Sprintf("digest search %s/%s: err %v", u.user, id, r.err)
 				}
@@ -587,6 +624,85 @@ func wild(tokens string) bool {
 	return false
 }
 
+// O6. reachMismatch walks a decoded query the way indexManager.Search (shard/index/search.go) dispatches
+// it — by property name, then by the TYPE of the property's index — and returns the first vector leaf whose
+// length differs from the dimension of the index it would be run on ("" if none). What is not executed
+// (the other list of a composite node, option blocks of other types) is not looked at.
+func reachMismatch(schema models.IndexSchema, q models.Query) string {
+	switch q.Property {
+	case "_and", "_or":
+		subs := q.And
+		if q.Property == "_or" {
+			subs = q.Or
+		}
+		for _, s := range subs {
+			if m := reachMismatch(schema, s); m != "" {
+				return m
+			}
+		}
+		return ""
+	case "_id":
+		return ""
+	}
+	sv, ok := schema[q.Property]
+	if !ok {
+		return ""
+	}
+	switch sv.Type {
+	case models.IndexTypeVectorFlat:
+		if q.VectorFlat == nil || sv.VectorFlat == nil {
+			return ""
+		}
+		if q.VectorFlat.Filter != nil {
+			if m := reachMismatch(schema, *q.VectorFlat.Filter); m != "" {
+				return m
+			}
+		}
+		if len(q.VectorFlat.Vector) != int(sv.VectorFlat.VectorSize) {
+			return fmt.Sprintf("vectorFlat:dim=%d:len=%d", sv.VectorFlat.VectorSize, len(q.VectorFlat.Vector))
+		}
+	case models.IndexTypeVectorVamana:
+		if q.VectorVamana == nil || sv.VectorVamana == nil {
+			return ""
+		}
+		if q.VectorVamana.Filter != nil {
+			if m := reachMismatch(schema, *q.VectorVamana.Filter); m != "" {
+				return m
+			}
+		}
+		if len(q.VectorVamana.Vector) != int(sv.VectorVamana.VectorSize) {
+			return fmt.Sprintf("vectorVamana:dim=%d:len=%d", sv.VectorVamana.VectorSize, len(q.VectorVamana.Vector))
+		}
+	case models.IndexTypeText:
+		if q.Text != nil && q.Text.Filter != nil {
+			return reachMismatch(schema, *q.Text.Filter)
+		}
+	}
+	return ""
+}
+
+// checkReach applies O6 to an answered search
+func (rn *runner) checkReach(ep, ctype string, raw []byte, ci *colInfo, st int, key string, req request, hline string) {
+	if ci == nil || st < 200 || st >= 300 {
+		return
+	}
+	m := ""
+	switch ep {
+	case "v2Search":
+		if v, ok, _ := decodeInto[models.SearchRequest](ctype, raw); ok {
+			m = reachMismatch(ci.Schema, v.Query)
+		}
+	case "v1Search":
+		if v, ok, _ := decodeInto[v1.SearchPointsRequest](ctype, raw); ok {
+			// the v1 handler runs a vamana query on "vector"
+			m = reachMismatch(ci.Schema, models.Query{Property: "vector", VectorVamana: &models.SearchVectorVamanaOptions{Vector: v.Vector}})
+		}
+	}
+	if m != "" {
+		rn.fail("vector-dim-reached:"+ep+":"+m, fmt.Sprintf("%s %s was answered %d although the executed part of its query runs a vector of the wrong length on an index (%s): the vector reached the distance computation", req.method, req.path, st, m), rn.replayFor(key, req, hline))
+	}
+}
+
 // ---------------------------------------------------------------------------- main
 
 type epDef struct {
@@ -606,6 +722,7 @@ var endpoints = []epDef{
 }
 
 var planNums = map[string][3]int{}
+var noSweep bool
 
 func main() {
 	seed := flag.Uint64("seed", 1, "PRNG seed")
@@ -614,6 +731,7 @@ func main() {
 	replay := flag.String("replay", "", "replay the http lines of this file against a fresh child server")
 	serve := flag.String("serve", "", "(internal) run the child server with this data directory")
 	deep := flag.Int("deepmp", 0, "also send one MessagePack body nested this deep (0 = off)")
+	flag.BoolVar(&noSweep, "nosweep", false, "skip the deterministic probes (to measure what the random generator finds on its own)")
 	flag.Parse()
 	if *serve != "" {
 		serveMain(*serve)
@@ -731,7 +849,9 @@ type runner struct {
 	baseFailed map[string]bool
 	judged     int
 	unjudged   int
-	distinct   map[string]struct{}
+	// a time-out was confirmed by a ping + retry (see judge)
+	hangConfirmed bool
+	distinct      map[string]struct{}
 }
 
 func (rn *runner) restart() {
@@ -875,8 +995,10 @@ func run(seed uint64, n int, dir string, deepmp int) {
 	defer func() { rn.w.c.kill() }()
 
 	t0 := time.Now()
-	rn.pagingProbe()
-	rn.boundarySweep()
+	if !noSweep {
+		rn.pagingProbe()
+		rn.boundarySweep()
+	}
 	for i := 0; i < n && !rn.abort; i++ {
 		func() {
 			defer func() { // a bug of the harness must not end the run silently
@@ -952,6 +1074,40 @@ func (rn *runner) judge(req request, ep, ctype, mutKind, mutPath, key, hline str
 	c := rn.w.c
 	resp := c.do(req)
 	rn.judged++
+	retried := false
+	if resp.err != nil && isTimeout(resp.err) && c.alive() && !rn.hangConfirmed {
+		// No answer within the client's time-out although the process lives. The machine is shared: a stall of
+		// the whole child looks the same as a hung handler. Before this is reported, the server gets a minute to
+		// answer a ping and the same request is sent once more with a long time-out: a handler that hangs on a
+		// lock hangs again (reported as before); a request that is answered now was slow, not lost. The retried
+		// request is not compared with the model (the first attempt may have been carried out meanwhile).
+		rn.statusCt["timeout-first-attempt"]++
+		if c.waitPing(60 * time.Second) {
+			if r2 := c.doWith(slowClient, req); r2.err == nil {
+				resp, retried = r2, true
+				rn.statusCt["answered-on-retry"]++
+			}
+		}
+		if !retried {
+			rn.hangConfirmed = true // a real hang: later time-outs of this run are reported at once
+		}
+	}
+	if retried {
+		// judged for "answered" and 5xx only: the first attempt may have been carried out as well, so neither the
+		// model's status nor the state digest of before applies
+		st := resp.status
+		rn.statusCt[strconv.Itoa(st)]++
+		if st >= 500 && !rn.w.taint[key] {
+			msg := string(resp.body)
+			rn.fail(fmt.Sprintf("5xx:%s:%d:%s", ep, st, errClass(msg)), fmt.Sprintf("%s %s (%s / %s) answered %d %s", req.method, req.path, mutKind, mutPath, st, strings.TrimSpace(msg)), rn.replayFor(key, req, hline))
+		}
+		if st >= 200 && st < 300 && req.method != "GET" && !strings.HasSuffix(req.path, "/search") {
+			rn.w.hist[key] = append(rn.w.hist[key], req.line())
+		}
+		time.Sleep(200 * time.Millisecond)
+		rn.refresh()
+		return st
+	}
 	if resp.err != nil {
 		time.Sleep(50 * time.Millisecond)
 		if !c.alive() {
@@ -1196,7 +1352,7 @@ func (rn *runner) iteration(i int) {
 	}
 	// ---- body
 	var body *N
-	mutKind, mutPath := "", ""
+	mutKind, mutPath, semKind := "", "", ""
 	jsonOnly, mpOnly := false, false
 	if ep.body {
 		switch ep.name {
@@ -1210,7 +1366,7 @@ func (rn *runner) iteration(i int) {
 			}
 			for k := 0; k < np; k++ {
 				if api == "v1" {
-					pts.A = append(pts.A, g.v1Point(specV1(spec), g.r.Chance(80)))
+					pts.A = append(pts.A, g.v1Point(rn.specV1(spec, ci), g.r.Chance(80)))
 				} else {
 					pts.A = append(pts.A, g.point(spec, g.r.Chance(85)))
 				}
@@ -1224,13 +1380,16 @@ func (rn *runner) iteration(i int) {
 					pts.A[1].Set("_id", pts.A[0].Get("_id").Clone())
 				}
 			}
+			if api == "v2" && g.r.Chance(12) {
+				semKind = g.violatePoints(spec, pts)
+			}
 			body = Obj("points", pts)
 		case "Update":
 			pts := &N{K: 'a'}
 			for k := 0; k < 1+g.r.Intn(2); k++ {
 				var p *N
 				if api == "v1" {
-					p = g.v1Point(specV1(spec), true)
+					p = g.v1Point(rn.specV1(spec, ci), true)
 					if id := rn.someKnown(key); id != "" && g.r.Chance(80) {
 						p.Set("id", Str(id))
 					}
@@ -1248,6 +1407,21 @@ func (rn *runner) iteration(i int) {
 				}
 				pts.A = append(pts.A, p)
 			}
+			if g.r.Chance(15) { // the same id twice in one request, other data
+				var p *N
+				if api == "v1" {
+					p = g.v1Point(rn.specV1(spec, ci), true)
+					p.Set("id", pts.A[0].Get("id").Clone())
+				} else {
+					p = g.point(spec, true)
+					p.Set("_id", pts.A[0].Get("_id").Clone())
+				}
+				pts.A = append(pts.A, p)
+				semKind = "sem:repeated-id"
+			}
+			if api == "v2" && g.r.Chance(12) {
+				semKind = strings.TrimPrefix(semKind+"+"+g.violatePoints(spec, pts), "+")
+			}
 			body = Obj("points", pts)
 		case "Delete":
 			idl := &N{K: 'a'}
@@ -1258,19 +1432,36 @@ func (rn *runner) iteration(i int) {
 					idl.A = append(idl.A, Str(g.uuid()))
 				}
 			}
+			if g.r.Chance(20) { // the same id named more than once in one request
+				idl.A = append(idl.A, idl.A[g.r.Intn(len(idl.A))].Clone())
+				if g.r.Bool() {
+					idl.A = append([]*N{idl.A[len(idl.A)-1].Clone()}, idl.A...)
+				}
+				semKind = "sem:repeated-id"
+			}
 			body = Obj("ids", idl)
 		case "Search":
 			if api == "v1" {
-				body = Obj("vector", g.vec(specV1(spec).props[0].dim), "limit", Int(int64(g.r.Intn(76))))
+				body = Obj("vector", g.vec(rn.specV1(spec, ci).props[0].dim), "limit", Int(int64(g.r.Intn(76))))
 			} else {
 				body = g.search(spec)
+				if g.r.Chance(30) {
+					// one executed leaf broken against the schema / the limits, valid structure around it
+					if k := g.violate(spec); k != "" {
+						semKind = "sem:" + k
+					}
+				}
 				if g.r.Chance(6) { // paging boundaries
 					body.Set("offset", Int(vh.Pick(g.r, []int64{math.MaxInt64, math.MaxInt64 - 99, math.MaxInt64 - 100, 1 << 62, 100, 7})))
 				}
 			}
 		}
-		if g.r.Chance(72) {
+		if semKind != "" {
+			mutKind = semKind
+		}
+		if (semKind == "" && g.r.Chance(72)) || (semKind != "" && g.r.Chance(25)) {
 			mutKind, mutPath, jsonOnly, mpOnly = g.mutate(body)
+			mutKind = strings.TrimPrefix(semKind+"+"+mutKind, "+")
 			if g.r.Chance(15) {
 				k2, p2, j2, m2 := g.mutate(body)
 				mutKind, mutPath = mutKind+"+"+k2, mutPath+"+"+p2
@@ -1386,6 +1577,9 @@ func (rn *runner) iteration(i int) {
 	if st < 0 {
 		return
 	}
+	if ep.name == "Search" {
+		rn.checkReach(epName, sentCtype, raw, ci, st, key, req, hline)
+	}
 	// O4: a body the decoder refuses must not be accepted
 	if ep.body && tokens == "!" && st >= 200 && st < 300 {
 		rn.fail("undecodable-accepted:"+epName, "the harness' run of the same decoder refuses this body, the server answered 2xx", rn.replayFor(key, req, hline))
@@ -1416,6 +1610,17 @@ func isBase(id string) bool {
 		}
 	}
 	return false
+}
+
+// what the v1 API would go by on this collection: the vamana block of IndexSchema["vector"], whatever
+// the declared type of that entry is (a stray block next to another type included)
+func (rn *runner) specV1(s *colSpec, ci *colInfo) *colSpec {
+	if ci != nil {
+		if v, ok := ci.Schema["vector"]; ok && v.VectorVamana != nil && v.VectorVamana.VectorSize >= 1 && v.VectorVamana.VectorSize <= 64 && rn.g.r.Chance(85) {
+			return &colSpec{props: []prop{{path: "vector", kind: "vectorVamana", dim: int(v.VectorVamana.VectorSize), metric: v.VectorVamana.DistanceMetric}}}
+		}
+	}
+	return specV1(s)
 }
 
 func specV1(s *colSpec) *colSpec {
@@ -1510,6 +1715,9 @@ func (rn *runner) createBody(api string) *N {
 			case 2:
 				p.quant = Obj("type", Str("product"), "product", Obj("numCentroids", Int(int64(vh.Pick(g.r, []int{2, 16, 256}))), "numSubVectors", Int(int64(vh.Pick(g.r, []int{2, 3, 4, 8}))), "triggerThreshold", Int(1000)))
 			}
+		}
+		if g.r.Chance(30) {
+			p.stray = g.strayBlocks(p)
 		}
 		cs.props = append(cs.props, p)
 	}
